@@ -176,6 +176,8 @@ class Executor:
             return w.op_touch(op["path"])
         if k == "swap":
             return w.op_swap(op["a"], op["b"], op.get("by_rename", False))
+        if k == "link":
+            return w.op_link(op["src"], op["dst"], op.get("hard", False))
         if k == "mkdir":
             return w.op_mkdir(op["path"])
         if k == "corrupt":
@@ -340,7 +342,7 @@ class Executor:
         return {"entry": key}
 
     # -- processes ----------------------------------------------------------------
-    def fresh_reference(self, nonce):
+    def fresh_reference(self, nonce, same_walk_as=None):
         """From-scratch scan of the current tree under the current configuration
         (the reference model: same entry point, no durable state)."""
         w = self.world
@@ -353,7 +355,8 @@ class Executor:
         had = w.stash_cache()
         saved = (CTX.clock, CTX.uuid_n)
         try:
-            obs = w.scan("%s/ref" % nonce, set_policy=self.set_policy, walk_policy=self.walk_policy)
+            obs = w.scan("%s/ref" % nonce, set_policy=self.set_policy, walk_policy=self.walk_policy,
+                         walk_nonce=same_walk_as)
             F = w.cache_json() if obs["outcome"] == "ok" else None
             markers = {m: read_bytes(os.path.join(w.cache_dir, m)) for m in MARKERS
                        if os.path.exists(os.path.join(w.cache_dir, m))}
